@@ -73,6 +73,14 @@ claimed = {
    text="Generated fake hwmon trees and selectors go through the real discovery and matching code (over a pure-Go libsensors stand-in) inside the real daemon, three times with different seeded enumeration orders of the chips; the files each entry's own goroutines read and write are compared with a reference binding computed from tree + selector, must not include any other device, and must agree across orders; entries naming a non-existing device must end start-up with an error naming the entry, without a runtime-error panic and without any write.",
    note="Trusted base: the stand-in's feature ordering (type, then channel) matches libsensors - it defines what 'index' means. A ui.Fatal exit (message, then pterm's panic) before any device was written counts as a clean failure when the message names the entry.",
    tech="deterministic simulation of the daemon over generated device trees with permuted enumeration order; observed-I/O vs reference-binding oracle"),
+ "C14": dict(cat="fault_enumeration", ref="§3/C14",
+   text="(i) seeded sequences of save/load/delete/corrupt operations of both kinds over three fan ids with arbitrary maps run through the real persistence code (bbolt reopened per operation) against an in-memory model, reading back all six entries after every step; (ii) for each generated sequence a real worker process is killed by SIGKILL at the k-th pwrite64 and at the k-th fdatasync (strace syscall injection) for every k that sequence issues, and a fresh process reads everything back: acknowledged operations visible, the in-flight one all-or-nothing, other entries untouched.",
+   note="Crash points are enumerated exhaustively per sequence; sequences are sampled. Process kill, not power loss (completed writes survive, no torn pwrite). No simulated clock/scheduler is involved (L0/L3); concurrent clients are not explored because the operations contain no seam (stated in DESIGN.md).",
+   tech="model-based operation sequences + exhaustive crash-point injection per sequence (SIGKILL at syscall k via strace), fresh-process read-back"),
+ "C18": dict(cat="exploration", ref="§3/C18",
+   text="As root the harness walks an executable and a configuration file through owner x group x all 512 modes x {direct, symlink} with real chown/chmod and calls the real cmd sensor, cmd fan and configuration validation at every point: the command's side-effect marker must grow exactly when the reference predicate holds and the file is executable, a rejected file must yield an error and leave no trace; thorough enumerates all 4096 attribute points (that sub-space exhaustively), quick samples 2048 draws. A closed loop with cmd backends has its scripts' attributes flipped between executions by environment events; every exec event is judged on the attributes in force at its check.",
+   note="Runs as root. Flips never land between check and start of one execution (inherent check-then-exec window). The walk is OS-level attribute enumeration; only c18loop runs under the simulator.",
+   tech="attribute-space enumeration with side-effect marker oracle + deterministic simulation with permission-flip events"),
 }
 checks = []
 for p in props:
